@@ -27,15 +27,151 @@ if VERIF not in sys.path:
     sys.path.insert(0, VERIF)
 
 from harness import enc  # noqa: E402
+from harness.world import OPS  # noqa: E402   (the hints with which results are encoded)
 
 OUT = os.environ.get('VERIF_TRACE_OUT')
 MAXBITS = int(os.environ.get('VERIF_TRACE_MAXBITS', '4096'))
 MAXOBJS = int(os.environ.get('VERIF_TRACE_MAXOBJS', '12'))
+FULL = os.environ.get('VERIF_TRACE_FULL', '1') == '1'     # map simple calls onto fully specified ones
 MAXEVENTS = int(os.environ.get('VERIF_TRACE_MAXEVENTS', '300'))     # per test; the rest of a longer test runs untraced
 
 SKIP = {'__init__', '__new__', '__class__', '__getattribute__', '__setattr__', '__delattr__', '__dir__', '__sizeof__',
         '__reduce__', '__reduce_ex__', '__init_subclass__', '__subclasshook__', '__format__', '__getstate__',
         '__class_getitem__', '__del__'}
+
+
+NONE_I = enc.NONE_I
+BIG = 10 ** 8
+
+
+def _i(x):
+    """an int argument small enough for TLC, None as the sentinel; anything else is not mappable"""
+    if x is None:
+        return NONE_I
+    if isinstance(x, bool):
+        return int(x)
+    if isinstance(x, int) and abs(x) < BIG:
+        return x
+    raise ValueError('not mappable')
+
+
+def _ba(x):
+    return NONE_I if x is None else int(bool(x))
+
+
+class Mapper:
+    """Maps a call the tests make onto a fully specified call of the specification when its arguments have the simple
+    shapes below (bitstrings, strings / bytes that the library promotes, small ints, None, slices of those); returns
+    None otherwise and the call is then judged on envelope and frame only (extcall)."""
+    def __init__(self, rec):
+        self.rec = rec
+
+    def operand(self, a):
+        import bitstring
+        if isinstance(a, bitstring.Bits):
+            name = self.rec.name_of(a, create=False)
+            if name is None:
+                raise ValueError('untracked operand')
+            p = self.rec.proj(a)
+            return {'k': 'obj', 'id': name, 'kind': p['c'], 'v': p['v']}
+        if isinstance(a, (str, bytes, bytearray)) and len(a) < 600:
+            b = bitstring.Bits(a)          # (promotion itself is the subject of C02 / C08)
+            return {'k': 'lit', 'id': '', 'kind': 'bin', 'v': [int(ch) for ch in b.bin]}
+        raise ValueError('not mappable')
+
+    def posarg(self, pos):
+        if pos is None:
+            return 'none', []
+        if isinstance(pos, bool):
+            raise ValueError
+        if isinstance(pos, int):
+            return 'int', [_i(pos)]
+        if isinstance(pos, (list, tuple)) and len(pos) <= 40 and all(isinstance(q, int) and not isinstance(q, bool) for q in pos):
+            return ('list' if isinstance(pos, list) else 'tuple'), [_i(q) for q in pos]
+        if isinstance(pos, range) and len(pos) <= 200:
+            return 'range', [_i(pos.start), _i(pos.stop), _i(pos.step)]
+        raise ValueError
+
+    def map(self, m, args, kw):
+        try:
+            return self._map(m, list(args), dict(kw))
+        except Exception:
+            return None
+
+    def _map(self, m, a, kw):
+        C = lambda op, **f: dict({'op': op, 'ia': [], 'sa': [], 'va': [], 'xs': []}, **f)
+        n = len(a)
+        if m in ('__len__', '__bool__', '__invert__', 'clear', 'bytealign', 'copy') and not a and not kw:
+            return C({'__len__': 'len', '__bool__': 'bool', '__invert__': 'inv', 'clear': 'clear', 'bytealign': 'bytealign',
+                      'copy': 'copy_m'}[m])
+        if m == 'tobytes' and not a and not kw:
+            return C('tobytes', sa=['tobytes'])
+        binops = {'__eq__': 'eq', '__ne__': 'ne', '__add__': 'add', '__and__': 'and', '__or__': 'or', '__xor__': 'xor',
+                  '__iadd__': 'iadd', '__iand__': 'iand', '__ior__': 'ior', '__ixor__': 'ixor', '__contains__': 'contains',
+                  'append': 'append', 'prepend': 'prepend'}
+        if m in binops and n == 1 and not kw:
+            return C(binops[m], xs=[self.operand(a[0])])
+        intops = {'__mul__': 'mul', '__lshift__': 'lshift', '__rshift__': 'rshift', '__imul__': 'imul', '__ilshift__': 'ilshift',
+                  '__irshift__': 'irshift'}
+        if m in intops and n == 1 and not kw and isinstance(a[0], int) and not isinstance(a[0], bool):
+            return C(intops[m], ia=[_i(a[0])])
+        if m in ('__getitem__', '__delitem__') and n == 1:
+            k = a[0]
+            if isinstance(k, slice):
+                return C('getslice' if m == '__getitem__' else 'delslice', ia=[_i(k.start), _i(k.stop), _i(k.step)])
+            if isinstance(k, int) and not isinstance(k, bool):
+                return C('getitem' if m == '__getitem__' else 'delitem', ia=[_i(k)])
+            return None
+        if m == '__setitem__' and n == 2:
+            k, v = a
+            if isinstance(k, slice):
+                c = C('setslice', ia=[_i(k.start), _i(k.stop), _i(k.step)])
+            elif isinstance(k, int) and not isinstance(k, bool):
+                c = C('setitem', ia=[_i(k)])
+            else:
+                return None
+            if isinstance(v, int):
+                if abs(int(v)) >= 1 << 62:
+                    return None
+                c['va'] = [enc.enc_int(int(v))]
+            else:
+                c['xs'] = [self.operand(v)]
+            return c
+        if m in ('insert', 'overwrite') and 1 <= n <= 2 and set(kw) <= {'pos'}:
+            pos = a[1] if n == 2 else kw.get('pos')
+            return C(m, xs=[self.operand(a[0])], ia=[_i(pos)])
+        if m == 'reverse' and n <= 2 and set(kw) <= {'start', 'end'}:
+            st = a[0] if n >= 1 else kw.get('start')
+            en = a[1] if n >= 2 else kw.get('end')
+            return C('reverse', ia=[_i(st), _i(en)])
+        if m in ('rol', 'ror') and 1 <= n <= 3 and set(kw) <= {'start', 'end'}:
+            st = a[1] if n >= 2 else kw.get('start')
+            en = a[2] if n >= 3 else kw.get('end')
+            return C(m, ia=[_i(a[0]), _i(st), _i(en)])
+        if m == 'invert' and n <= 1 and set(kw) <= {'pos'}:
+            kind, ia = self.posarg(a[0] if n else kw.get('pos'))
+            return C('invert', sa=[kind], ia=ia)
+        if m in ('set', 'all', 'any') and 1 <= n <= 2 and set(kw) <= {'pos'}:
+            kind, ia = self.posarg(a[1] if n == 2 else kw.get('pos'))
+            return C(m, sa=[kind], ia=[int(bool(a[0]))] + ia)
+        if m == 'count' and n == 1 and not kw:
+            return C('count', ia=[int(bool(a[0]))])
+        if m in ('find', 'rfind') and 1 <= n <= 4 and set(kw) <= {'start', 'end', 'bytealigned'}:
+            st = a[1] if n >= 2 else kw.get('start')
+            en = a[2] if n >= 3 else kw.get('end')
+            ba = a[3] if n >= 4 else kw.get('bytealigned')
+            return C(m, xs=[self.operand(a[0])], ia=[_i(st), _i(en), _ba(ba)])
+        if m in ('startswith', 'endswith') and 1 <= n <= 3 and set(kw) <= {'start', 'end'}:
+            st = a[1] if n >= 2 else kw.get('start')
+            en = a[2] if n >= 3 else kw.get('end')
+            return C(m, xs=[self.operand(a[0])], ia=[_i(st), _i(en)])
+        if m == 'replace' and 2 <= n <= 6 and set(kw) <= {'start', 'end', 'count', 'bytealigned'}:
+            g = lambda i, k: a[i] if n > i else kw.get(k)
+            return C('replace', xs=[self.operand(a[0]), self.operand(a[1])],
+                     ia=[_i(g(2, 'start')), _i(g(3, 'end')), _i(g(4, 'count')), _ba(g(5, 'bytealigned'))])
+        if m in ('read', 'peek') and n == 1 and not kw and isinstance(a[0], int) and not isinstance(a[0], bool):
+            return C('readbits' if m == 'read' else 'peekbits', ia=[_i(a[0])])
+        return None
 
 
 class Recorder:
@@ -51,6 +187,7 @@ class Recorder:
         self.active = False
         self.nobj = 0
         self.stats = {'events': 0, 'tests': 0, 'calls_skipped_large': 0}
+        self.mapper = Mapper(self)
 
     # -- per test ---------------------------------------------------------
     def start_test(self):
@@ -124,7 +261,7 @@ class Recorder:
         the first time"""
         post = {}
         byname = {n: o for n, o in self.ids.values()}
-        for name in self.order[-MAXOBJS:]:
+        for name in list(dict.fromkeys([self.name_of(o) for o in extra] + self.order[-MAXOBJS:])):
             o = byname[name]
             try:
                 p = self.proj(o)
@@ -168,6 +305,7 @@ class Recorder:
             self.resync(involved)
             tname = self.name_of(self_obj)
             before = dict(self.opts)
+            mapped = self.mapper.map(mname, args, kwargs) if FULL else None
             out = {'k': 'ok', 'exc': [], 'ename': '', 'vals': [], 'ids': [], 'alias': []}
             ret = None
             err = None
@@ -190,8 +328,19 @@ class Recorder:
                 out['vals'].append(enc.enc_obj(ret))
                 out['ids'].append(rname)
                 out['alias'].append('' if fresh else rname)
+            elif err is None and mapped is not None:
+                if isinstance(ret, bitstring.Bits):
+                    mapped = None          # a result too large to log
+                else:
+                    try:
+                        out['vals'].append(enc.enc_value(ret, OPS[mapped['op']][1]))
+                        out['ids'].append('')
+                        out['alias'].append('')
+                    except Exception:
+                        mapped = None
             byname = {n: o for n, o in self.ids.values()}
-            for name in self.order[-MAXOBJS:]:
+            watch = list(dict.fromkeys([self.name_of(o) for o in involved] + self.order[-MAXOBJS:]))
+            for name in watch:
                 try:
                     p = self.proj(byname[name])
                 except Exception:
@@ -200,7 +349,13 @@ class Recorder:
                     post[name] = p
                     self.last[name] = p
             after = self.cur_opts()
-            self.emit({'op': 'extcall', 't': tname, 'sa': [mname], 'opts': before, 'out': out, 'post': post, 'optsp': after})
+            if mapped is not None:
+                self.stats['calls_fully_specified'] = self.stats.get('calls_fully_specified', 0) + 1
+                self.emit(dict(mapped, t=tname, opts=before, out=out, post=post, optsp=after))
+            else:
+                if out['vals'] and not out['ids'][0]:
+                    out['vals'], out['ids'], out['alias'] = [], [], []
+                self.emit({'op': 'extcall', 't': tname, 'sa': [mname], 'opts': before, 'out': out, 'post': post, 'optsp': after})
             self.opts = after
             if err is not None:
                 raise err
